@@ -272,7 +272,9 @@ func c18Paths(r *rand.Rand) ([]string, string) {
 	n := 1 + r.Intn(5)
 	var paths, shapes []string
 	walletNames := []string{"Wallet1", "Wallet2", "Cold", "D"}
-	exprs := []string{"acct1", "acct.*", "val", "VAL", "b", ".*b", "acct1|val", "acct[0-9]", "acct1.?", "(acct2|b)", "[", "a|"}
+	exprs := []string{"acct1", "acct.*", "val", "VAL", "b", ".*b", "acct1|val", "acct[0-9]", "acct1.?", "(acct2|b)", "[", "a|",
+		// every kind of regular-expression syntax, not only the common operators
+		`acct\d`, `acct\d+`, `\x61cct1`, `val{1}`, `b{1,2}`, `acct[[:digit:]]`, `\w+`, `(?i)VAL`, `acct\d{1,2}`}
 	for i := 0; i < n; i++ {
 		switch r.Intn(10) {
 		case 0, 1, 2:
